@@ -129,6 +129,9 @@ def negative_models():
     sys.path.insert(0, os.path.join(ROOT, "tools"))
     import vlib
     ok = True
+    m = vlib.run_apalache("AP_Bounds.tla", "TooTight")
+    print("negative control AP_Bounds.tla/TooTight (Apalache): %s" % ("UNEXPECTED: holds" if m["ok"] else "violated as expected"))
+    ok = ok and not m["ok"]
     for (mod, cfg, inv) in NEG_MODELS:
         m = vlib.run_model(mod, cfg, workers=4, timeout=900)
         hit = (not m["ok"]) and ("Invariant %s is violated" % inv) in m["out"]
